@@ -48,6 +48,7 @@ SHAPE_RULES = {
     "W-ORDER": "EXPAND-EQUIV", "T-BLOCKS": "EXPAND-EQUIV", "T-RANGE": "EXPAND-EQUIV",
     "T-BOUNDROWS": "STD-EQUIV", "T-FLIP": "STD-EQUIV", "T-REMOVE": "STD-EQUIV", "T-SLACK": "STD-EQUIV", "W-PUSHPAIR": "STD-EQUIV",
     "D-HANDLE": "FRONT-DOOR-EQUIV",
+    "MUST-CHECK": "BRIDGE-EQUIV / GOODLP-BRIDGE-EQUIV (status and error verdicts)", "OPT-FORWARD": "BRIDGE-EQUIV (options)",
     "T-SECTIONS": "LP-ROUND-TRIP", "NAME-NS": "LP-ROUND-TRIP", "T-SENSE": "LP-ROUND-TRIP", "T-REL": "LP-ROUND-TRIP",
 }
 
